@@ -151,6 +151,7 @@ func (rn *runner) runPeerScript(h Hist) {
 		unflushed := !cfg.SyncOnWrite && imageLacks(pt.Image, s.Acc)
 		ctx := fmt.Sprintf("cfg=%s at=send:%s unflushed=%v", cfgClass(cfg), s.Msg.Type, unflushed)
 		r := rn.recoverCached(pt.Image, cfg)
+		rn.curImg, rn.curRec, rn.curCfg = pt.Image, &r, cfg
 		desc := fmt.Sprintf("real Peer, script %s, crash inside transport.Send(%s term=%d index=%d reject=%v) image{%s}", sc.Name, s.Msg.Type, s.Msg.Term, s.Msg.Index, s.Msg.Reject, pt.Image.Describe())
 		if r.Err != "" {
 			rn.viol(h, ctx+" got=reopen-refused:"+r.Err, desc+": "+r.Det)
